@@ -40,7 +40,7 @@ def xobs_coq(o):
         coq_list(["(%s, %s, %s)" % (coq_z(s[0]), coq_z(s[1]), coq_bool(s[2] == 1)) for s in g["Ixs"]]))
         for g in o["igs"]])
     return ("{| o_ok := %s; o_pols := %s; o_sgs := %s; o_igs := %s; o_nsh := %s; o_nix := %s; o_dsh := %s; o_dix := %s |}"
-            % (coq_bool(o["ok"]), pols, sgs, igs, zl(o["nsh"]), coq_list(["(%s, %s)" % (coq_z(x[0]), coq_z(x[1])) for x in o["nix"]]), zl(o["dsh"]), zl(o["dix"])))
+            % (coq_bool(o["ok"]), pols, sgs, igs, coq_list(["(%s, %s)" % (coq_z(x[0]), coq_z(x[1])) for x in o["nsh"]]), coq_list(["(%s, %s)" % (coq_z(x[0]), coq_z(x[1])) for x in o["nix"]]), zl(o["dsh"]), zl(o["dix"])))
 
 
 def xcase_coq(t):
